@@ -218,7 +218,7 @@ def lead_meta(n, edstart=None):
     """n leading non-story children of roCreate (roID, roSlug, then optional extras)."""
     out = []
     if n >= 3:
-        out.append(T('roEdStart', edstart))
+        out.append(E('roEdStart', text=edstart, origin='ncs'))      # attributes a replacement does not carry
     if n >= 4:
         out.append(E('mosExternalMetadata', T('mosScope', 'PLAYLIST'), T('mosSchema', 'sch.ro'),
                      E('mosPayload', T('Owner', 'own', ), E('nested', T('leaf', 'x'), k='v'))))
@@ -238,11 +238,11 @@ def ro_tree(stories, lead=2, gap=None, trail=0, msg_id='1', ro_id='RO', ro_slug=
     for i, s in enumerate(stories):
         kids.append(s)
         if gap is not None and gap == i:
-            kids.append(gap_elem if gap_elem is not None else T('roTrigger', 'gap'))
+            kids.append(gap_elem if gap_elem is not None else E('roTrigger', text='gap', origin='ncs'))
     if lead < 2:
         kids.extend(head)
     for j in range(trail):
-        kids.append(T('roChannel', 'trail%d' % j))
+        kids.append(E('roChannel', text='trail%d' % j, origin='ncs'))
     return envelope(E('roCreate', *kids), msg_id=msg_id)
 
 
